@@ -265,7 +265,8 @@ def make_spec(rng, gen, kind, how=None, npk=None, ascii_only=True, special=None)
     if how == "one" and len(chunks) > 400:
         spec["gaps"] = [rng.choice([0, 0, 0, 1]) for _ in chunks]
     spec["cb"] = {"raise_every": rng.choice([0, 0, 1, 2, 3]), "sleep_every": rng.choice([0, 0, 2, 4]),
-                  "yield_every": rng.choice([0, 0, 3]), "sleep_s": rng.choice([0.01, 0.25, 3.0])}
+                  "yield_every": rng.choice([0, 0, 3]), "sleep_s": rng.choice([0.01, 0.25, 3.0]),
+                  "send_every": rng.choice([0, 0, 0, 2, 3])}
     if rng.random() < 0.1:
         spec["opts"] = {"exclude_pgns": [127250, 129029]}
     spec["special"] = special
